@@ -19,18 +19,6 @@ def compare(cases):
     rans = runner([c[1] for c in cases])
     diffs = []
     for i, (a, b) in enumerate(zip(mans, rans)):
-        if "ambiguous" in a:
-            # the same type name is imported from two crates (or a glob next to a named import): which
-            # one `HashSet::find` returns depends on the per-process hash seed; compared modulo imports
-            a = dict(a)
-            a.pop("ambiguous")
-            mans[i] = a
-            if isinstance(a.get("ok"), dict) and isinstance(b.get("ok"), dict):
-                a2, b2 = dict(a["ok"]), dict(b["ok"])
-                a2.pop("import_types", None)
-                b2.pop("import_types", None)
-                if a2 == b2:
-                    continue
         if a != b:
             diffs.append(i)
     return mans, rans, diffs
